@@ -258,7 +258,9 @@ func VerifC11Shutdown() {
 		}
 	}
 
-	verifYieldAny() // anything that is pending may happen before the shutdown call takes the lock
+	if verifBound("racer", 1) == 1 {
+		verifYieldAny() // anything that is pending may happen before the shutdown call takes the lock
+	}
 	serr := r.Shutdown(ctx)
 	c.shutdownRet = true
 	verifEvent("Shutdown returned")
